@@ -198,7 +198,14 @@ func sortableNumber(node *CandidateNode, tag string) (*big.Float, bool, bool) {
 	switch tag {
 	case "!!int":
 		_, num, err := parseInt64(node.Value)
-		return new(big.Float).SetInt64(num), false, err == nil
+		if err != nil {
+			// yaml resolves integers up to 2^64-1 (in any base) as !!int: beyond int64 compare the exact value
+			if bigNum, ok := new(big.Int).SetString(strings.ReplaceAll(node.Value, "_", ""), 0); ok {
+				return new(big.Float).SetInt(bigNum), false, true
+			}
+			return nil, false, false
+		}
+		return new(big.Float).SetInt64(num), false, true
 	case "!!float":
 		switch strings.ToLower(node.Value) {
 		case ".inf", "+.inf":
